@@ -489,11 +489,15 @@ def run(ctx, R):
         ctx, d, 'placement.exception.CannotDeleteParentResourceProvider')
         if not c08._in_handler(x, d.node)]
     rec = C.calls_to(ctx, d, RPM + ':_delete_rp_record')
+    # the test: the call itself or a local bound to it
+    gtest = guards[0].test if guards else None
+    if isinstance(gtest, ast.Name):
+        gdef = c05.single_def(d, gtest.id)
+        gtest = gdef.value if gdef is not None else gtest
     okdel = len(guards) == 1 and len(rec) == 1 and gd.dominates(
         guards[0], C.stmt_of(rec[0])) and isinstance(
-            guards[0].test, ast.Call) and RPM + ':_has_child_providers' in \
-        C.call_name(ctx, d, guards[0].test) and src(
-            guards[0].test.args[-1]) == d.params[1]
+            gtest, ast.Call) and RPM + ':_has_child_providers' in \
+        C.call_name(ctx, d, gtest) and src(gtest.args[-1]) == d.params[1]
     R.ob('R9.4', 'delete:children-refused', okdel,
          'a provider with children is refused before its row is deleted',
          [src(x.test) for x in guards], func=d)
@@ -554,6 +558,9 @@ def r97(ctx, R):
     if len(calls) == 1:
         flt = C.kwarg(calls[0], 'filters') or (
             calls[0].args[1] if len(calls[0].args) > 1 else None)
+        if isinstance(flt, ast.Name):
+            fdef = c05.single_def(f, flt.id)
+            flt = fdef.value if fdef is not None else flt
         ok1 = isinstance(flt, ast.Dict) and len(flt.keys) == 1 and \
             isinstance(flt.keys[0], ast.Constant) and \
             flt.keys[0].value == 'in_tree' and src(flt.values[0]) == \
